@@ -182,11 +182,6 @@ func seqWorker(r *vk.Run, job *seqJob) {
 	})
 }
 
-func shorten(s string) string {
-	// balances are long decimal numbers: cut them to keep the result lines small (the key hashes the full string)
-	return s
-}
-
 type seqStats struct {
 	Name                string
 	Depth               int
